@@ -417,6 +417,27 @@ pub fn dt_families(out: &mut impl Write, rng: &mut Rng, thorough: bool) {
             dtnew_line(out, f, l);
         }
     }
+    // exact range ends for every kind of offset: the local fields of (range end + offset ± 1 s), so that
+    // unix = fields - offset is MAX + δ resp. MIN + δ
+    let mut edge_offs: Vec<i32> = vec![1, -1, 3600, -3600, 86400, -86400, 100_000_000, -100_000_000, 2_000_000_000, -2_000_000_000, i32::MAX, i32::MIN + 1];
+    for _ in 0..40 {
+        edge_offs.push(rng.range(i32::MIN as i64 + 1, i32::MAX as i64) as i32);
+    }
+    for off in edge_offs {
+        let l = LocalTimeType::with_ut_offset(off).unwrap();
+        for delta in -2..=2i64 {
+            for end in [MAX_UNIX_TIME, MIN_UNIX_TIME] {
+                let local = end + off as i64 + delta;
+                if let Ok(c) = UtcDateTime::from_timespec(local, 0) {
+                    dtnew_line(out, (c.year(), c.month(), c.month_day(), c.hour(), c.minute(), c.second(), 0), l);
+                }
+            }
+        }
+        // years well inside the last / first century of the range with a huge outward offset
+        for y in [i32::MAX - 5, i32::MAX - 40, i32::MAX - 67, i32::MIN + 5, i32::MIN + 40, i32::MIN + 67] {
+            dtnew_line(out, (y, 6, 15, 12, 0, 0, 0), l);
+        }
+    }
     // dtfromlocal
     for i in 0..n {
         let l = rand_ltt(rng);
